@@ -23,6 +23,10 @@ class Agg:
     return 'Agg(%s, %r)' % (self.kind, self.data)
 
 
+K_AGGS = {'ArgMin2': ('ArgMin', 2), 'ArgMax2': ('ArgMax', 2), 'ArgMin3': ('ArgMin', 3)}
+K_AGG_PRELUDE = {'ArgMin2': 'ArgMin2(x) = ArgMinK(x, 2);', 'ArgMax2': 'ArgMax2(x) = ArgMaxK(x, 2);', 'ArgMin3': 'ArgMin3(x) = ArgMinK(x, 3);'}
+
+
 def L(items):
   return ('L', tuple(items))
 
@@ -50,6 +54,40 @@ def aggregate(op, values, switches=None):
       if v == best and a not in cands:
         cands.append(a)
     return Agg('oneof', cands) if len(cands) > 1 else Agg('exact', cands[0])
+  if op in K_AGGS:
+    # user-defined through ArgMinK / ArgMaxK: the k args with the smallest (largest) values, in that order;
+    # ties may come in any order and, at the cut, any of the tied args may be kept
+    base, k = K_AGGS[op]
+    pairs = []
+    for r in values:
+      if r is None:
+        continue
+      d = dict(r[1])
+      if d.get('value') is None:
+        continue
+      pairs.append((d.get('arg'), d['value']))
+    import itertools
+    from vf.ref.evaluator import Ambiguous
+    if not pairs:
+      raise Ambiguous()      # a group whose values are all null: not described by the documentation, not judged
+    groups = {}
+    for a, v in pairs:
+      groups.setdefault(v, []).append(a)
+    cands = [()]
+    for v in sorted(groups, reverse=(base == 'ArgMax')):
+      if all(len(c) >= k for c in cands):
+        break
+      g = groups[v]
+      if len(g) > 5:
+        raise Ambiguous()
+      perms = set(itertools.permutations(g))
+      cands = list({(c + p)[:k] for c in cands for p in perms})
+    outs = []
+    for c in cands:
+      if c not in outs:
+        outs.append(c)
+    outs = [L(list(c)) for c in outs]
+    return Agg('oneof', outs) if len(outs) > 1 else Agg('exact', outs[0])
   nn = [v for v in values if v is not None]
   if op == 'Sum':
     return Agg('exact', sum(nn) if nn else None)
